@@ -55,10 +55,14 @@ def _env():
     mdg, _ = pp.mdg_library.square_with_orthogonal_fractures(
         "cartesian", {"cell_size": 0.5}, fracture_indices=[1])
     es = pp.ad.EquationSystem(mdg)
-    x = es.create_variables("x", subdomains=mdg.subdomains())
+    # the md-variable is created fracture-first, i.e. NOT in the grid order of the md-grid:
+    # its sub-variable order then differs from the global dof order
+    sds = sorted(mdg.subdomains(), key=lambda g: g.dim)
+    x = es.create_variables("x", subdomains=sds)
     lam = es.create_variables("lam", interfaces=mdg.interfaces())
-    _ENV.update(mdg=mdg, es=es, x=x, lam=lam, n=es.num_dofs(),
-                dx=es.dofs_of([x]), dx2=es.dofs_of([x.sub_vars[0]]), dl=es.dofs_of([lam]))
+    x2 = [v for v in x.sub_vars if v.domain.dim == 2][0]
+    _ENV.update(mdg=mdg, es=es, x=x, lam=lam, n=es.num_dofs(), sds=sds, x2=x2,
+                dx=es.dofs_of([x]), dx2=es.dofs_of([x2]), dl=es.dofs_of([lam]))
     return _ENV
 
 
@@ -212,7 +216,7 @@ def build(p, data, shift=(0, 0)):
         if k == "Xi":
             return e["x"].previous_iteration()
         if k == "X2":
-            return e["x"].sub_vars[0]
+            return e["x2"]
         if k == "L":
             return e["lam"]
         if k == "Lp":
@@ -251,8 +255,8 @@ def build(p, data, shift=(0, 0)):
     if name == "S@":
         return pp.ad.SparseArray(data["S"]) @ c
     if name == "R@":
-        proj = pp.ad.SubdomainProjections(e["mdg"].subdomains())
-        return proj.cell_restriction([e["mdg"].subdomains()[0]]) @ c
+        proj = pp.ad.SubdomainProjections(e["sds"])
+        return proj.cell_restriction([e["x2"].domain]) @ c
     raise ValueError(name)
 
 
@@ -322,7 +326,8 @@ def ref_eval(p, vals, t=0, it=0, hooks=None):
     if name == "S@":
         return vals["S"] @ c
     if name == "R@":
-        return c[: len(e["dx2"])]
+        nfrac = len(e["dx"]) - len(e["dx2"])
+        return c[nfrac:]  # x is ordered fracture-first; the restriction keeps the matrix cells
     raise ValueError(name)
 
 
